@@ -9,6 +9,8 @@ OPS = [o for o in UN_BOOL + UN_TIMED + BIN_BOOL + ["sinceT", "untilT", "unlessT"
 
 
 def main():
+    import astlib
+    astlib.AUTO_FUNCS = 0.2       # sqrt exp ln log pow at exact points in a fifth of the generated formulas
     rep = core.Report("C07")
     quick = core.tier() == "quick"
     ax, ay = pred("ge", var("x"), const(0)), pred("lt", var("y"), const(1))
